@@ -17,3 +17,8 @@ STOP = ['codec::', 'core::global', 'core::mcs', 'core::x224', 'core::tpkt', 'cor
 
 def run(ctx):
     run_hpa(ctx, ENTRIES, STOP, {'functions': 140, 'sites': 110}, 'NLA')
+    # the exported session key that mic() / build_security_interface unwrap is set on every path of read_challenge_message, whatever the
+    # server's NegotiateFlags (wiring rule R15.4 of C15, same facts): a key set only under a server-controlled flag makes the unwrap a
+    # server-triggered panic
+    import c15
+    ctx.include(c15.run, ('R15.4',), 'R07.2')
